@@ -194,7 +194,7 @@ def replay_macrotable(ctx, tree, q):
             uniq.append(c)
     if len(uniq) < 50:
         raise Infra("MacroTable generator wrote only %d histories" % len(uniq))
-    uniq = vt.subsample(uniq, ctx.seed, 8 if q else 2)
+    uniq = vt.subsample(uniq, ctx.seed, 24 if q else 2)
     d = ctx.tmp("mtab")
     nk = len(uniq[0][2])
     names = [key_name(k + 1, 5) for k in range(nk)]          # colliding names again
@@ -314,7 +314,7 @@ def run(ctx):
     # hidden state after a model no-op / a state reached by another history is exercised too)
     pairs = [dict(h=b["h"], hist=b["hist"] + [b["op"]], op=n["op"], exp=n["exp"])
              for b in beh if b["fail"] == "none" for n in b["nx"]]
-    pairs = vt.subsample(pairs, ctx.seed, 4 if q else 1)
+    pairs = vt.subsample(pairs, ctx.seed, 8 if q else 1)
     replay_inproc(ctx, exe4, pairs, "cap4x")
     # as many keys as (and more than) initial slots: histories that leave no never-used slot
     # (put/delete of every key) - the table must purge tombstones instead of probing forever
